@@ -19,4 +19,5 @@ HOOK_COMMITS = [
     "0a7bef8 verif hook: SharedHistory::verif_init_at / verif_delta_count",
     "d6f85c4 verif hooks: src/verif.rs registry, history lock points, clock override, process_once wrapper, run outcome injection, notify point, HTTP dispatcher exposure",
     "68fa744 verif hooks: clock override in SharedHistory::update, thread exemption and wait_any",
+    "verif hook: SharedHistory::verif_replace_current",
 ]
